@@ -48,7 +48,7 @@ fn run_c08(args: &Args, report: &Report) {
     let only = args.extra.get("only").cloned().unwrap_or_default();
     // sequential, deterministic histories
     let seq_shards = args.by_tier(32usize, 64);
-    let seq_per_shard = args.by_tier(40usize, 300);
+    let seq_per_shard = args.by_tier(40usize, 200);
     if only != "conc" {
         let a = args.clone();
         let r = report.clone();
@@ -61,7 +61,7 @@ fn run_c08(args: &Args, report: &Report) {
     }
     // concurrent stress histories
     let conc_shards = args.by_tier(16usize, 32);
-    let conc_per_shard = args.by_tier(12usize, 120);
+    let conc_per_shard = args.by_tier(12usize, 60);
     if only != "seq" {
         let a = args.clone();
         let r = report.clone();
@@ -78,7 +78,7 @@ fn run_c08(args: &Args, report: &Report) {
 
     if selftest(args) == 0 && only.is_empty() {
         let q = !args.is_thorough();
-        report.require("seq.histories", if q { 1000 } else { 15_000 });
+        report.require("seq.histories", if q { 1000 } else { 10_000 });
         report.require("seq.ops", if q { 25_000 } else { 400_000 });
         report.require("seq.ok_imports", if q { 5_000 } else { 80_000 });
         report.require("seq.failed_imports_db_compared", if q { 12_000 } else { 200_000 });
@@ -115,10 +115,10 @@ fn run_c08(args: &Args, report: &Report) {
         report.require("seq.fault.multi_height_batch", 10);
         report.require("seq.backend.memory", 100);
         report.require("seq.backend.rocksdb", 10);
-        report.require("conc.histories", if q { 150 } else { 3000 });
-        report.require("conc.ok_imports", if q { 1500 } else { 30_000 });
+        report.require("conc.histories", if q { 150 } else { 1500 });
+        report.require("conc.ok_imports", if q { 1500 } else { 12_000 });
         report.require("conc.err.busy", 50);
-        report.require("conc.announcements_checked", if q { 1500 } else { 30_000 });
+        report.require("conc.announcements_checked", if q { 1500 } else { 12_000 });
         report.require("conc.overlapping_call_pairs", 100);
     }
 }
